@@ -18,3 +18,6 @@ pub fn shim_max_u32(a: u32, b: u32) -> (r: u32) ensures r == if a >= b { a } els
 pub assume_specification<'a, T> [std::option::Option::<&T>::copied] (o: std::option::Option<&'a T>) -> (r: std::option::Option<T>)
     where T: std::marker::Copy,
     ensures r == (match o { Some(x) => Some(*x), None => None });
+pub broadcast proof fn lemma_seq_take_full<T>(s: Seq<T>)
+    ensures #[trigger] s.take(s.len() as int) == s
+{ assert(s.take(s.len() as int) =~= s); }
